@@ -1956,7 +1956,7 @@ func (f *fragment) mergeBlock(id int, data []pairSet) (sets, clears []pairSet, e
 	clears = make([]pairSet, len(data)+1)
 
 	// Limit upper row/column pair.
-	maxRowID := uint64(id+1) * HashBlockSize
+	maxRowID := uint64(id+1)*HashBlockSize - 1
 	maxColumnID := uint64(ShardWidth)
 
 	// Create buffered iterator for local block.
